@@ -9,6 +9,9 @@ package i18ntable
 //	errors.Message (Err)  ui.Log/WriteLog (Log)  ui.Say/SayAlways (Say)
 //	cli.Option{Description: ...} composite literals (Opt)
 //
+// A local variable that is only ever assigned sink functions (log := ui.Log; if force { log = ui.WriteLog })
+// is followed as that sink.
+//
 // A key argument is resolved when it is a string literal, a concatenation of
 // resolvable parts, a named constant (same package or pkg.Name), or a local
 // variable all of whose assignments in the enclosing function are resolvable.
@@ -84,16 +87,17 @@ type exFile struct {
 type exPkg struct {
 	dir    string
 	files  []*exFile
-	consts map[string][]ast.Expr // every const spec in the package (any scope), by name
+	consts map[string][]ast.Expr // package-level const specs, by name
 	cfile  map[ast.Expr]*exFile
 }
 
 type extractor struct {
-	root  string
-	fset  *token.FileSet
-	pkgs  map[string]*exPkg
-	sinks map[exSinkKey]exSink
-	stats exStats
+	aliased map[token.Pos]bool // sink references assigned to a local variable whose calls are followed
+	root    string
+	fset    *token.FileSet
+	pkgs    map[string]*exPkg
+	sinks   map[exSinkKey]exSink
+	stats   exStats
 }
 
 func baseSinks() map[exSinkKey]exSink {
@@ -162,10 +166,10 @@ func (x *extractor) load() error {
 		}
 		pk.files = append(pk.files, ef)
 		x.stats.Files++
-		ast.Inspect(f, func(n ast.Node) bool {
-			gd, ok := n.(*ast.GenDecl)
+		for _, d := range f.Decls { // package-level constants (function-local ones are handled with the local variables)
+			gd, ok := d.(*ast.GenDecl)
 			if !ok || gd.Tok != token.CONST {
-				return true
+				continue
 			}
 			for _, sp := range gd.Specs {
 				vs := sp.(*ast.ValueSpec)
@@ -176,8 +180,7 @@ func (x *extractor) load() error {
 					}
 				}
 			}
-			return true
-		})
+		}
 		return nil
 	})
 	x.stats.Packages = len(x.pkgs)
@@ -252,9 +255,12 @@ func exprText(fset *token.FileSet, root string, e ast.Expr) string {
 }
 
 // which sink (if any) does this call expression invoke
-func (x *extractor) sinkOf(f *exFile, call *ast.CallExpr) (exSink, string, bool) {
+func (x *extractor) sinkOf(f *exFile, call *ast.CallExpr, aliases map[string]exSink) (exSink, string, bool) {
 	switch fn := call.Fun.(type) {
 	case *ast.Ident:
+		if s, ok := aliases[fn.Name]; ok {
+			return s, fn.Name + " (local alias of a sink)", true
+		}
 		s, ok := x.sinks[exSinkKey{f.dir, fn.Name}]
 		return s, fn.Name, ok
 	case *ast.SelectorExpr:
@@ -359,6 +365,7 @@ func paramIndex(ft *ast.FuncType, name string) int {
 
 func (x *extractor) run() ([]exSite, []exDyn) {
 	x.sinks = baseSinks()
+	x.aliased = map[token.Pos]bool{}
 	var sites []exSite
 	var dyn []exDyn
 	for round := 0; round < 8; round++ {
@@ -373,25 +380,61 @@ func (x *extractor) run() ([]exSite, []exDyn) {
 					if isFn {
 						body = fd.Body
 					}
+					// log := ui.Log ; if force { log = ui.WriteLog } ; log(class, "key", ...)  -- local aliases of sinks
+					aliases := map[string]exSink{}
+					ast.Inspect(d, func(n ast.Node) bool {
+						as, ok := n.(*ast.AssignStmt)
+						if !ok || len(as.Lhs) != len(as.Rhs) {
+							return true
+						}
+						for i, l := range as.Lhs {
+							id, ok := l.(*ast.Ident)
+							if !ok {
+								continue
+							}
+							if sk, _, ok := x.sinkOf(f, &ast.CallExpr{Fun: as.Rhs[i]}, nil); ok {
+								if old, have := aliases[id.Name]; !have || old == sk {
+									aliases[id.Name] = sk
+									x.aliased[as.Rhs[i].Pos()] = true
+								} else {
+									aliases[id.Name] = exSink{"?", 1 << 20} // two different sinks under one name: give up on it
+								}
+							}
+						}
+						return true
+					})
+					litParams := map[string]bool{} // parameter names of function literals inside this declaration
+					ast.Inspect(d, func(n ast.Node) bool {
+						if fl, ok := n.(*ast.FuncLit); ok && fl.Type.Params != nil {
+							for _, p := range fl.Type.Params.List {
+								for _, nm := range p.Names {
+									litParams[nm.Name] = true
+								}
+							}
+						}
+						return true
+					})
 					ast.Inspect(d, func(n ast.Node) bool {
 						call, ok := n.(*ast.CallExpr)
 						if !ok {
 							return true
 						}
-						sk, via, ok := x.sinkOf(f, call)
+						sk, via, ok := x.sinkOf(f, call, aliases)
 						if !ok || sk.arg >= len(call.Args) {
 							return true
 						}
 						x.stats.SinkCalls++
 						arg := call.Args[sk.arg]
 						pos := x.fset.Position(arg.Pos())
-						if s, ok := x.resolve(f, arg, 0); ok {
-							sites = append(sites, exSite{Kind: sk.kind, Key: s, File: f.rel, Line: pos.Line, Via: via, pos: call.Pos()})
-							return true
-						}
+						// a bare identifier is looked up innermost scope first: parameter, local variable/constant, package constant
 						if id, isId := arg.(*ast.Ident); isId && isFn && body != nil {
+							if litParams[id.Name] {
+								dyn = append(dyn, exDyn{sk.kind, f.rel, pos.Line, exprText(x.fset, x.root, arg) + " (parameter of a function literal)"})
+								return true
+							}
+							vals, allConst, assigned := x.localValues(f, body, id.Name)
 							if pi := paramIndex(fd.Type, id.Name); pi >= 0 {
-								if _, _, reassigned := x.localValues(f, body, id.Name); !reassigned {
+								if !assigned {
 									x.stats.ViaParam++
 									nm := fd.Name.Name
 									if fd.Recv != nil {
@@ -405,12 +448,23 @@ func (x *extractor) run() ([]exSite, []exDyn) {
 									}
 									return true
 								}
-							} else if vals, ok, _ := x.localValues(f, body, id.Name); ok {
-								for _, s := range vals {
-									sites = append(sites, exSite{Kind: sk.kind, Key: s, File: f.rel, Line: pos.Line, Via: via + " (local variable " + id.Name + ")", pos: call.Pos()})
+								dyn = append(dyn, exDyn{sk.kind, f.rel, pos.Line, exprText(x.fset, x.root, arg) + " (reassigned parameter)"})
+								return true
+							}
+							if assigned {
+								if allConst {
+									for _, s := range vals {
+										sites = append(sites, exSite{Kind: sk.kind, Key: s, File: f.rel, Line: pos.Line, Via: via + " (local " + id.Name + ")", pos: call.Pos()})
+									}
+								} else {
+									dyn = append(dyn, exDyn{sk.kind, f.rel, pos.Line, exprText(x.fset, x.root, arg)})
 								}
 								return true
 							}
+						}
+						if s, ok := x.resolve(f, arg, 0); ok {
+							sites = append(sites, exSite{Kind: sk.kind, Key: s, File: f.rel, Line: pos.Line, Via: via, pos: call.Pos()})
+							return true
 						}
 						dyn = append(dyn, exDyn{sk.kind, f.rel, pos.Line, exprText(x.fset, x.root, arg)})
 						return true
@@ -515,7 +569,7 @@ func (x *extractor) run() ([]exSite, []exDyn) {
 			})
 			ast.Inspect(f.ast, func(n ast.Node) bool {
 				se, ok := n.(*ast.SelectorExpr)
-				if !ok || called[se] {
+				if !ok || called[se] || x.aliased[se.Pos()] {
 					return true
 				}
 				if id, ok := se.X.(*ast.Ident); ok {
